@@ -226,12 +226,78 @@ def _allocation(ctx):
     ctx.ob("R11.4", "_init_arrays:field-dtype", not bad and len(rows) == 12, "E, H and every CPML memory are allocated with one dtype: complex64 / complex128 (matching the configured real dtype) when complex fields are requested or required by a non-zero Bloch vector, the configured real dtype otherwise; use_complex_fields=False with a non-zero Bloch vector is rejected (12 combinations)", bad[:2], "one dtype per run")
 
 
+def _complex_profile_vs_filter(ctx):
+    """ModePlaneSource.apply: the modal profile is kept complex only on paths on which no filtered temporal profile
+    is stored — the injection's quadrature branch (real increments) is taken only without a filter, so a complex
+    profile together with a filter would inject complex numbers."""
+    ix = ctx.index
+    m = ix.cls("fdtdx.objects.sources.mode.ModePlaneSource").lookup_method("apply")
+    ctx.unit(m.where())
+    defs = {}
+    for st in ast.walk(m.node):
+        if isinstance(st, ast.Assign) and len(st.targets) == 1 and isinstance(st.targets[0], ast.Name):
+            defs.setdefault(st.targets[0].id, []).append(st.value)
+    real_if = filt_if = None
+    for st in ast.walk(m.node):
+        if not isinstance(st, ast.If):
+            continue
+        body_src = "\n".join(ast.unparse(x) for x in st.body)
+        if "jnp.real(" in body_src and any(isinstance(x, ast.Assign) and isinstance(x.targets[0], ast.Tuple) for x in st.body):
+            real_if = st
+        for c in ast.walk(ast.Module(body=st.body, type_ignores=[])):
+            if isinstance(c, ast.Call) and isinstance(c.func, ast.Attribute) and c.func.attr == "aset" and c.args and isinstance(c.args[0], ast.Constant) and c.args[0].value == "_temporal_H_filter" and not (isinstance(c.args[1], ast.Constant) and c.args[1].value is None):
+                filt_if = st
+    if real_if is None or filt_if is None:
+        raise AnalysisError("ModePlaneSource.apply: cannot locate the real-projection branch or the filter branch")
+
+    def resolve(node, depth=0):
+        if isinstance(node, ast.Name) and node.id in defs and len(defs[node.id]) == 1 and depth < 3 and isinstance(defs[node.id][0], (ast.BoolOp, ast.Compare, ast.UnaryOp)):
+            return resolve(defs[node.id][0], depth + 1)
+        if isinstance(node, ast.BoolOp):
+            return ast.BoolOp(op=node.op, values=[resolve(v, depth) for v in node.values])
+        if isinstance(node, ast.UnaryOp) and isinstance(node.op, ast.Not):
+            return ast.UnaryOp(op=ast.Not(), operand=resolve(node.operand, depth))
+        return node
+
+    def atoms(node, out):
+        if isinstance(node, ast.Compare) and len(node.ops) == 1 and isinstance(node.ops[0], (ast.Is, ast.IsNot)) and isinstance(node.left, ast.Name) and isinstance(node.comparators[0], ast.Constant) and node.comparators[0].value is None:
+            out.add(node.left.id)
+        elif isinstance(node, ast.BoolOp):
+            for v in node.values:
+                atoms(v, out)
+        elif isinstance(node, ast.UnaryOp):
+            atoms(node.operand, out)
+        else:
+            raise AnalysisError(f"ModePlaneSource.apply: condition not made of `x is (not) None` tests: {ast.unparse(node)}")
+        return out
+
+    def ev(node, present):
+        if isinstance(node, ast.Compare):
+            p_ = present[node.left.id]
+            return p_ if isinstance(node.ops[0], ast.IsNot) else not p_
+        if isinstance(node, ast.BoolOp):
+            vals = [ev(v, present) for v in node.values]
+            return all(vals) if isinstance(node.op, ast.And) else any(vals)
+        return not ev(node.operand, present)
+
+    proj_test = resolve(real_if.test)  # true -> projected to real
+    filt_test = resolve(filt_if.test)
+    names = sorted(atoms(proj_test, set()) | atoms(filt_test, set()))
+    clash = []
+    for bits in itertools.product((False, True), repeat=len(names)):
+        present = dict(zip(names, bits))
+        if (not ev(proj_test, present)) and ev(filt_test, present):
+            clash.append({n: ("given" if b else "None") for n, b in present.items()})
+    ctx.ob("R11.5", "ModePlaneSource.apply:complex-profile-vs-filter", not clash and len(names) >= 2, f"over all {2 ** len(names)} combinations of present / absent conductivity and dispersive arrays, the modal profile is never left complex on a path that also stores a filtered temporal profile (the filtered injection multiplies the profile as it is, without the real quadrature decomposition)", clash[:2], "no combination")
+
+
 def run(ctx):
     from .. import par
 
     _who_may_branch(ctx)
     _allocation(ctx)
     _sources(ctx)
+    _complex_profile_vs_filter(ctx)
     jobs = _solver_scenes()
     err = par.run_jobs(ctx, "sa.checks.c11", "_job", jobs, [j[0] for j in jobs])
     if err:
